@@ -291,12 +291,16 @@ def do_replay(mod, path):
     unit = body.get("unit")
     if unit is not None:
         res = mod.run_unit(_tuplify(unit))
-        for v in res.get("violations", []):
-            if v["oracle"] == body["oracle"] and jcanon(v["case"]) == jcanon(body["case"]):
-                print(f"VIOLATION property={mod.ID} replay={path}")
-                print("  oracle:", body["oracle"], "(reproduces only within the call sequence of its work unit: state leaks between calls)")
-                print("  detail:", str(v.get("detail"))[:2000])
-                return 1
+        same = [v for v in res.get("violations", []) if v["oracle"] == body["oracle"]]
+        exact = [v for v in same if jcanon(v["case"]) == jcanon(body["case"])]
+        # the same oracle firing on another case of the same unit, in a fresh interpreter, is as real a violation: which case
+        # fails first depends on what the worker had run before (state leaking between networks)
+        for v in (exact or same)[:1]:
+            print(f"VIOLATION property={mod.ID} replay={path}")
+            print("  oracle:", body["oracle"], "(reproduces only within the call sequence of its work unit: state leaks between calls)"
+                  + ("" if exact else f" [on case {jcanon(v['case'])[:300]} of the same unit]"))
+            print("  detail:", str(v.get("detail"))[:2000])
+            return 1
     print(f"replay {path}: oracle {body['oracle']} did not fire ({len(vs)} other findings)")
     return 0
 
